@@ -27,7 +27,20 @@ SIM = {
     "1802": ("ldi 0x%02x", 8, r"\| D = ([0-9a-f]{2})", r" PC = ([0-9a-f]+)", 2),
     "65816": ("lda #0x%02x", 8, r" A=0x00([0-9a-f]{2}) ", r" PC=0x([0-9a-f]+)", 2),
     "mips": ("li $t0, 0x%04x", 16, r"\$t0: 0x([0-9a-f]{8})", r" PC: 0x([0-9a-f]+)", 4),
+    "8008": ("mvi a, 0x%02x", 8, r"(?m)^a: 0x([0-9a-f]{2}) ", r"PC=0x([0-9a-f]+)", 2),
+    "riscv": ("li t0, 0x%03x", 11, r"x5/t0: ([0-9a-f]{8})", r" pc: ([0-9a-f]+)", 4),
+    "lc3": ("add r1, r1, #%d", 4, r" r1: 0x([0-9a-f]{4})", r"PC=0x([0-9a-f]+)", 2),
+    "f100_l": ("lda #0x%04x", 16, r" A=(\d+) ", r"PC=0x([0-9a-f]+)", 4),
 }
+
+# simulators without a settable pc register: the first asm block of a session moves the PC to its origin
+NO_SET_PC = ("mips", "8008", "riscv", "lc3", "f100_l")
+# program counters narrower than 16 bits (a -set_pc beyond them wraps: F100-L has 15 address bits, the 8008 has 14)
+PC_MASK = {"f100_l": 0x7fff, "8008": 0x3fff}
+# register dumps that print the register in decimal
+REG_RADIX = {"f100_l": 10}
+# commands issued before the step (the template adds to the register instead of loading it)
+PRELUDE = {"lc3": "set r1=0"}
 
 # MIPS loads relative to a base register: mnemonic, width, signed
 MIPS_LOADS = [("lbu", 1, False), ("lhu", 2, False), ("lb", 1, True), ("lh", 2, True), ("lw", 4, False)]
@@ -178,6 +191,8 @@ class C19(Engine):
             elif k == 15 and cpu in SIM:
                 tmpl, bits, rre, pcre, ilen = SIM[cpu]
                 a = (base & 0x3fff) + 0x300 + rng.below(0x20) * max(align, 2) // bpa
+                if cpu == "8008":
+                    a &= 0x1fff          # 14-bit program counter
                 if cpu == "mips" and rng.chance(1, 2):
                     mn, wd, sg = rng.pick(MIPS_LOADS)
                     off = rng.pick([-4, -8, -32768, -2 if wd <= 2 else -4, -1 if wd == 1 else -4, 0, 4, 32764])
@@ -355,9 +370,10 @@ class C19(Engine):
                 console.append("write 0x%x %s" % (a, " ".join("0x%02x" % b for b in blob)))
                 expect.append(("write", (1, a, list(blob))))
                 touch(a * bpa, len(blob))
-                if cpu == "mips":
-                    # the MIPS simulator has no settable pc register; the first asm block of a session moves the
-                    # PC to its origin, so an (empty-bodied) block at the instruction's address does it once
+                if cpu in NO_SET_PC:
+                    # these simulators have no settable pc register; the first asm block of a session moves the
+                    # PC to its origin, so a block at the instruction's address does it once (the instruction the
+                    # simulator must fetch is the one written over the block afterwards)
                     if asm_seen[0]:
                         console[:] = console[:mark]
                         expect[:] = expect[:mark_e]
@@ -365,12 +381,15 @@ class C19(Engine):
                     asm_seen[0] = True
                     console.append("asm 0x%x" % a)
                     expect.append(("none", None))
-                    console.append("  nop")
+                    console.append("  nop" if cpu == "mips" else "  " + SIM[cpu][0] % ((op["imm"] + 1) & ((1 << SIM[cpu][1]) - 1)))
                     expect.append(("none", None))
                     console.append("")
                     expect.append(("none", None))
                     console.append("write 0x%x %s" % (a, " ".join("0x%02x" % b for b in blob)))
                     expect.append(("write", (1, a, list(blob))))
+                    if cpu in PRELUDE:
+                        console.append(PRELUDE[cpu])
+                        expect.append(("none", None))
                     console.append("step")
                 else:
                     console.append("set pc=0x%x" % a)
@@ -601,18 +620,19 @@ class C19(Engine):
                     res.unparsed += 1
                     res.probe("simstep_unparsed")
                     continue
-                if int(mr.group(1), 16) != imm:
+                if int(mr.group(1), REG_RADIX.get(cpu, 16)) != imm:
                     res.viol("simstep:register-differs-from-written-immediate:%s" % cpu, want="%x" % imm, got=mr.group(1), cmd=console[idx - 2:idx + 1])
                 pc_units = int(mp.group(1), 16)
                 if pc_units != a + ilen // bpa:
                     res.viol("simstep:pc-after-step:%s" % cpu, want="%x" % (a + ilen // bpa), got=mp.group(1))
                 res.probe("simstep_checked")
+                res.probe("simstep_checked:" + cpu)
             elif kind == "set_pc":
                 tmpl, bits, rre, pcre, _ = SIM[cpu]
                 mp = re.search(pcre, joined)
                 if not mp:
                     res.unparsed += 1
-                elif int(mp.group(1), 16) != payload & 0xffff and int(mp.group(1), 16) != payload:
+                elif int(mp.group(1), 16) not in (payload & 0xffff, payload, payload & PC_MASK.get(cpu, 0xffff)):
                     res.viol("set_pc:%s" % cpu, want="%x" % payload, got=mp.group(1))
                 else:
                     res.probe("set_pc_checked")
